@@ -187,16 +187,19 @@ def answer : List String → String
       | some c, some n => groupName c n (String.ofList (l.toList.drop 1))
       | _, _ => "bad-op"
   | ["filehist", l] => match parseJAll l with
-      -- [[w,name,id],[r,name],...] on one new file: w -> ok | rej (ValueError, file unchanged); r -> id | _ (KeyError)
+      -- [[w,name,pid,lid],[d,name],[r,name],...] on one new file (File.step): w -> ok | rej (ValueError, file unchanged);
+      -- d -> ok | rej (KeyError); r -> pid/lid (parameter-borne and layout-borne marker of what is stored) | _ (KeyError)
       | some (.list ops) =>
         let step := fun (st : File Nat × List String) (op : J) => match op with
-          | .list [.atom "w", .atom name, id] => match jNat? id with
-            | some id => match st.1.write name ⟨[], [], id⟩ with
-              | some f' => (f', "ok" :: st.2)
-              | none => (st.1, "rej" :: st.2)
-            | none => (st.1, "bad-op" :: st.2)
+          | .list [.atom "w", .atom name, pid, lid] => match jNat? pid, jInt? lid with
+            | some pid, some lid =>
+              let f' := st.1.step (.write name ⟨[], [(0, lid, lid)], pid⟩)
+              (f', (if (st.1.write name ⟨[], [], pid⟩).isSome then "ok" else "rej") :: st.2)
+            | _, _ => (st.1, "bad-op" :: st.2)
+          | .list [.atom "d", .atom name] =>
+              (st.1.step (.delete name), (if (st.1.delete name).isSome then "ok" else "rej") :: st.2)
           | .list [.atom "r", .atom name] => match st.1.get name with
-            | some s => (st.1, toString s.params :: st.2)
+            | some s => (st.1, (toString s.params ++ "/" ++ toString ((s.extras.head?.map (·.2.1)).getD 0)) :: st.2)
             | none => (st.1, "_" :: st.2)
           | _ => (st.1, "bad-op" :: st.2)
         showList id ((ops.foldl step (([] : File Nat), [])).2.reverse)
